@@ -128,6 +128,9 @@ def run(ctx):
         sites = _handler_sites(fn, pname)
         real = not fn.module.name.startswith('petl._controls')
         if not sites:
+            if real and _deferred_policy(rep, fn, kind, pname):
+                n_sites += 1
+                continue
             if real:
                 raise AnalysisError('anchor vanished: no `except Exception` handler testing failonerror in %s' % fn.fq)
             rep.violated('R19.1', fn, 'def ' + fn.name, 'no handler implements the failonerror policy', fn.node)
@@ -140,6 +143,48 @@ def run(ctx):
     ctx.floor('handler_sites', n_sites, 4)
     r192(ctx, rep)
     r193(ctx, rep)
+
+
+def _deferred_policy(rep, fn, kind, pname):
+    """The handler only records the exception (`err = e`) and the policy ladder runs after the try under
+    `if err is not None:`.  That is the same thing as deciding inside the handler exactly when the record is cleared
+    before *each* attempt, i.e. `err = None` stands in the statement list that contains the try statement."""
+    pm = parent_map(fn.node)
+    for tr in [n for n in own_nodes(fn.node) if isinstance(n, ast.Try)]:
+        for h in tr.handlers:
+            if not (handler_types(h) & {'Exception', 'BaseException'}) or not h.name:
+                continue
+            recs = [st for st in h.body if isinstance(st, ast.Assign) and isinstance(st.value, ast.Name) and
+                    st.value.id == h.name and isinstance(st.targets[0], ast.Name)]
+            if not recs:
+                continue
+            err = recs[0].targets[0].id
+            # the ladder guarded by `if err is not None` / `if err:` that tests the policy
+            ladders = [n for n in own_nodes(fn.node) if isinstance(n, ast.If) and norm(n.test) in ('%s is not None' % err, err)
+                       and _uses_name(n, pname)]
+            if not ladders:
+                continue
+            lad = ladders[0]
+            blk = None
+            p = pm.get(id(tr))
+            for field in ('body', 'orelse', 'finalbody'):
+                b = getattr(p, field, None)
+                if isinstance(b, list) and any(x is tr for x in b):
+                    blk = b
+            resets = [st for st in (blk or []) if isinstance(st, ast.Assign) and norm(st.targets[0]) == err and
+                      isinstance(st.value, ast.Constant) and st.value.value is None and st.lineno < tr.lineno]
+            if not resets:
+                rep.violated('R19.1', fn, 'deferred policy: %s' % err,
+                             'the handler records the exception in `%s` and the failonerror policy is applied after the try, but '
+                             '`%s` is not cleared before each attempt (no `%s = None` next to the try statement): after one '
+                             'failure every later cell / row of the same pass is treated as failing too' % (err, err, err), lad)
+                return True
+            # same decision table as for a handler, the recorded name standing for the exception
+            fake = ast.ExceptHandler(type=h.type, name=err, body=lad.body)
+            ast.copy_location(fake, lad)
+            _check_handler(rep, fn, kind, tr, fake, pname)
+            return True
+    return False
 
 
 def _check_handler(rep, fn, kind, tr, h, pname='failonerror'):
